@@ -52,11 +52,11 @@ type caseIn struct {
 	// inbound flood: FloodAtMs after the first ping the broker sends FloodN items of one kind that the
 	// application does not consume (Consume "none") or consumes slowly ("slow"); every ping is answered
 	// at once; the window ends 3 intervals + timeout after the flood and an ordinary request follows
-	FloodKind string `json:"flood_kind,omitempty"` // call | reply | chunk | meta | ack
-	FloodN    int    `json:"flood_n,omitempty"`
-	FloodAtMs int    `json:"flood_at_ms,omitempty"`
-	Consume   string `json:"consume,omitempty"`
-	IntervalNs uint64 `json:"interval_ns,omitempty"`  // announce cases
+	FloodKind  string `json:"flood_kind,omitempty"` // call | reply | chunk | meta | ack
+	FloodN     int    `json:"flood_n,omitempty"`
+	FloodAtMs  int    `json:"flood_at_ms,omitempty"`
+	Consume    string `json:"consume,omitempty"`
+	IntervalNs uint64 `json:"interval_ns,omitempty"` // announce cases
 	TimeoutNs  uint64 `json:"timeout_ns,omitempty"`
 }
 
